@@ -376,6 +376,11 @@ func (a *align) RemoveCharacterSites(c []uint8, cutoff float64, ends bool, ignor
 		cutoff = 0
 	}
 
+	// An alignment without any sequence (length -1) has no site to remove
+	if a.Length() <= 0 {
+		return
+	}
+
 	toremove := make([]int, 0, a.Length())
 	// To remove only positions with this character at start and ends positions
 	firstcontinuous := -1
@@ -469,10 +474,15 @@ func (a *align) RemoveCharacterSites(c []uint8, cutoff float64, ends bool, ignor
 // Returns the number of consecutive removed sites at start and end of alignment and the indexes of the
 // remaining positions
 func (a *align) RemoveMajorityCharacterSites(cutoff float64, ends, ignoreGaps, ignoreNs bool) (first, last int, kept, rm []int) {
-	_, occur, total := a.MaxCharStats(ignoreGaps, ignoreNs)
-
 	kept = make([]int, 0)
 	rm = make([]int, 0)
+
+	// An alignment without any sequence (length -1) has no site to remove
+	if a.Length() <= 0 {
+		return
+	}
+
+	_, occur, total := a.MaxCharStats(ignoreGaps, ignoreNs)
 
 	length := a.Length()
 	toremove := make([]int, 0, 10)
